@@ -503,6 +503,61 @@ def _work_b(task):
     return A.out()
 
 
+def _redef_plan(arity, level):
+    """[(mask, sequences per position)]: mask[k] = position k redefines an
+    already visible typedef name (C11 6.7p3: same type), otherwise it declares
+    a new name.  level 1 (quick): pairs over sequences <= 1, triples over a
+    4-sequence set; level 2 (thorough): new names of pairs range over
+    sequences <= 2, triples over all sequences <= 1."""
+    s1 = dm.sequences(1)
+    small = [(), (Ptr(),), (Arr("N"),), (Fn("void"),)]
+    out = []
+    masks = [m for m in itertools.product((False, True), repeat=arity) if any(m)]
+    for mask in masks:
+        if arity == 2:
+            per = [s1 if (m or level == 1) else dm.sequences(2) for m in mask]
+        else:
+            per = [small if level == 1 else s1 for _ in mask]
+        for combo in itertools.product(*per):
+            out.append((mask, combo))
+    return out
+
+
+def _work_b_redef(task):
+    """`typedef S R1 <d>; ... typedef S d1, d2[, d3];` where some positions
+    redefine R1.. with the same type, at file scope and in a block (there the
+    inner typedef hides the outer one).  The hiding of a typedef name by an
+    *object* (`T T, *p;`) is family (h), not this one."""
+    scope, si, arity, level, shard, nshards = task
+    A = Acc()
+    spec = tuple(B_SPECS[si])
+    plan = _redef_plan(arity, level)[shard::nshards]
+    new_names = ("x", "y", "z")
+    for mask, combo in plan:
+        A.states += 1
+        A.trans += arity + sum(len(c) for c in combo)
+        for red in ((False, True) if arity == 2 else (False,)):
+            try:
+                dts = tuple(Dtor(f"R{k}" if mask[k] else new_names[k], combo[k], None, None)
+                            for k in range(arity))
+                need_T = dm.uses_T(spec) or dm.uses_T(combo)
+                units = []
+                for k in range(arity):
+                    if mask[k]:
+                        units.append(dm.place("typedef", Decln(spec, (Dtor(f"R{k}", combo[k], None, None),)),
+                                              with_T=need_T and not units))
+                main = Decln((("storage", "typedef"),) + spec, dts)
+                units.append(dm.place(scope, main, red, with_T=False))
+            except dm.Unrenderable:
+                A.skipped += 1
+                continue
+            toks, exp = _join_units(units)
+            pos = "".join("R" if m else "n" for m in mask)
+            A.case(dm.text(toks), exp, lambda r: f"b:typedef-redefinition:{scope}:{r[0]}",
+                   {"family": "b-redef", "scope": scope, "positions": pos})
+    return A.out()
+
+
 # ---------------------------------------------------------------------------
 # (c) specifier list orderings
 # ---------------------------------------------------------------------------
@@ -1345,14 +1400,16 @@ def _work_h2(task):
     return A.out()
 
 
-def _audit_h2(R, shapes, tmp):
+def _work_audit_h2(task):
     """gcc decides both readings: `void f(int SHAPE);` must be compatible with
     the function type built one derivation per typedef for the reading the
     model expects, and (where the other reading exists) must NOT be compatible
     with the other one.  T is `char` here so that the readings differ in type."""
+    path, shapes = task
     lines = ["typedef char T;", "struct S { int m; };"]
     want = {}
     n = 0
+    fails = []
 
     def chain(seq, spec, stem):
         # parameter type through one-step typedefs (the inner parameter of the
@@ -1386,29 +1443,39 @@ def _audit_h2(R, shapes, tmp):
     lines.append(f"void fctl({dm.text(['int'] + h2_tokens('T', ('paren', 'ptr')))});")
     bad = chain(c_named, dm.S_INT, "CTL")
     lines.append(f"_Static_assert(__builtin_types_compatible_p(__typeof__(fctl), {bad}), \"#ctl#\");")
-    path = os.path.join(tmp, "h2.c")
     with open(path, "w") as f:
         f.write("\n".join(lines) + "\n")
     p = subprocess.run(["gcc", "-std=c11", "-fsyntax-only", "-w", "-fmax-errors=0", path],
                        capture_output=True, text=True)
     errs = [ln for ln in p.stderr.splitlines() if "error:" in ln]
     if not any("#ctl#" in ln for ln in errs):
-        R.fail("audit:h2:dead", {"stderr": p.stderr[:300]}, "gcc did not refute the deliberately wrong control")
+        fails.append(("audit:h2:dead", {"stderr": p.stderr[:300]}, "gcc did not refute the deliberately wrong control"))
     any_err = bool(errs)
     errs = [ln for ln in errs if "#ctl#" not in ln]
     for ln in errs:
         m = re.search(r"static assertion failed: \"#(\d+)#(pos|neg)\"", ln)
         if m:
             ops, core_tok, bi = want[int(m.group(1))]
-            R.fail("audit:h2:gcc-reads-the-parameter-differently",
-                   {"ops": list(ops), "innermost": core_tok, "base": bi, "which": m.group(2),
-                    "c": f"void f({dm.text(dm.render_spec(H2_BASES[bi]) + h2_tokens(core_tok, ops))});"},
-                   "gcc disagrees with the model's reading of 6.7.6.3p11")
+            fails.append(("audit:h2:gcc-reads-the-parameter-differently",
+                          {"ops": list(ops), "innermost": core_tok, "base": bi, "which": m.group(2),
+                           "c": f"void f({dm.text(dm.render_spec(H2_BASES[bi]) + h2_tokens(core_tok, ops))});"},
+                          "gcc disagrees with the model's reading of 6.7.6.3p11"))
         else:
-            R.fail("audit:h2:gcc-rejects", {"error": ln[:200]}, ln[:200])
+            fails.append(("audit:h2:gcc-rejects", {"error": ln[:200]}, ln[:200]))
     if p.returncode != 0 and not any_err:
-        R.fail("audit:h2:gcc-failed", {"stderr": p.stderr[:300]}, "gcc failed")
-    return n
+        fails.append(("audit:h2:gcc-failed", {"stderr": p.stderr[:300]}, "gcc failed"))
+    return n, fails[:20]
+
+
+def _audit_h2(R, shapes, tmp):
+    """The audit in parallel batches (each batch carries its own control)."""
+    tasks = [(os.path.join(tmp, f"h2_{k}.c"), ch)
+             for k, ch in enumerate(core.chunked(shapes, max(1, len(shapes) // 24)))]
+    total = 0
+    for n, fails in core.pmap(_work_audit_h2, tasks, chunksize=1):
+        total += n
+        R.fail_many(fails)
+    return total
 
 
 # ---------------------------------------------------------------------------
@@ -1422,6 +1489,10 @@ def run(tier):
         a_len=3 if quick else 4,
         b_len=1 if quick else 2,
         b_triple_len=1,
+        b_typedef_redefinition="every non-empty subset of positions of 2- and 3-declarator typedef declarations "
+                               "redefines a visible typedef name; file and block scope; " +
+                               ("pairs over sequences <=1, triples over 4 sequences" if quick else
+                                "pairs: new names over sequences <=2; triples over sequences <=1"),
         c_len=3 if quick else 4,
         d_members=3, d_enumerators=3,
         e_nodes=3 if quick else 4, e_depth=2, e_designator_chain=2,
@@ -1483,6 +1554,11 @@ def run(tier):
     for res in core.pmap(_work_b, tasks, chunksize=max(1, len(tasks) // 128)):
         T.merge("b", res)
 
+    lvl = 1 if quick else 2
+    tasks = [(scope, si, ar, lvl, sh, 4) for scope in ("file", "block") for si in range(len(B_SPECS))
+             for ar in (2, 3) for sh in range(4)]
+    for res in core.pmap(_work_b_redef, tasks, chunksize=1):
+        T.merge("b", res)
     lap("b")
 
     # (c)
